@@ -184,6 +184,7 @@ func unsupported(format string, a ...interface{}) {
 
 // Exec verifies one function (with everything inlined into it).
 type Exec struct {
+	arithMul bool
 	wm0      *WMs          // watermarks at function entry
 	freshSeq map[*Term]int // allocation order of object ids created by alloc / declared fresh by a contract
 	freshCtr int
